@@ -306,9 +306,14 @@ impl FillIter {
             .collect();
         edges.sort_by_key(|e| -e.start_y);
 
-        let active_edges = Vec::with_capacity(edges.len());
-
         let bounds = poly.bounding_rect();
+        if bounds.is_empty() {
+            // A polygon with zero width or height contains no pixels. The
+            // scanline loop relies on the bounds having a non-zero width.
+            edges.clear();
+        }
+
+        let active_edges = Vec::with_capacity(edges.len());
         let mut iter = FillIter {
             edges,
             active_edges,
@@ -521,6 +526,24 @@ mod tests {
                     panic!("mismatch at coord [{}, {}]", y, x);
                 }
             }
+        }
+    }
+
+    #[test]
+    fn test_fill_zero_width_polygon() {
+        // Polygons where all vertices have the same X coordinate, with an even
+        // and odd number of non-horizontal edges.
+        let polys = [
+            vec![Point::from_yx(0, 2), Point::from_yx(5, 2)],
+            vec![
+                Point::from_yx(0, 2),
+                Point::from_yx(3, 2),
+                Point::from_yx(6, 2),
+            ],
+        ];
+        for points in polys {
+            let poly = Polygon::new(points);
+            assert_eq!(poly.fill_iter().next(), None);
         }
     }
 
